@@ -266,6 +266,10 @@ class TaskCoordinator:
                             process_completed_tasks()
                     except KeyboardInterrupt:
                         logger.info('Terminating running tasks.')
+                        # Ensure no submitted task can still be started
+                        # (the second interrupt may have arrived before
+                        # the cancel above).
+                        runner.cancel()
                         runner.stop()
                         # Process completed tasks one last time after
                         # tasks have been killed.
